@@ -59,7 +59,8 @@ Inductive package :=
 | PkgMissing                       (* import_module(pkg) raises ModuleNotFoundError naming the package or a package it is nested in *)
 | PkgInitFails                     (* import_module(pkg) raises anything else: another ImportError, a missing
                                       other module, or any Exception out of the package's own code *)
-| PkgPresent (mods : list module). (* glob order *)
+| PkgPresent (mods : list module). (* the files that are scanned, in glob order: the first file of every module
+                                      name ([unique_names], see [import_outcome]) *)
 
 (* an instance of a mode class: where it came from *)
 Record inst := mkInst { ifile : string; icls : cls }.
@@ -259,7 +260,31 @@ Fixpoint dedup_dirs (seen : list string) (path : list portion) : list portion :=
 Definition path_dirs (path : list portion) : list portion := dedup_dirs [] path.
 
 (* for pkgdir in pkgdirs: modules.extend(glob(os.path.join(pkgdir, "*.py"))) *)
-Definition path_modules (path : list portion) : list module := flat_map pfiles (path_dirs path).
+Definition path_files (path : list portion) : list module := flat_map pfiles (path_dirs path).
+
+(* [fix f71dd92]  seen_module_names = set()
+   for module_filename in modules: ...
+       if module_name in seen_module_names: continue
+       seen_module_names.add(module_name)
+   A module NAME is scanned once: the first file of that name in the order of
+   [modules] stands for it, later files of the same name are skipped.  (The
+   directories of an implicit package may hold files of the same name; Python
+   imports "." + name from the first directory of __path__ only, so the
+   [classes]/[import_fails] of all files of one name are those of that one
+   module.)  The skip does not depend on anything the loop body does, so it is
+   modelled as a pass over the file list before the loop.  "__init__" is tested
+   first in the code and never entered into the set; those entries are skipped
+   by the loop anyway, so treating them like every other name changes nothing. *)
+Fixpoint unique_names (seen : list string) (ms : list module) : list module :=
+  match ms with
+  | [] => []
+  | m :: rest =>
+    if existsb (String.eqb (mname m)) seen then unique_names seen rest
+    else m :: unique_names (mname m :: seen) rest
+  end.
+
+(* the files that are scanned for an implicit package: one per module name *)
+Definition path_modules (path : list portion) : list module := unique_names [] (path_files path).
 
 (* what importlib.import_module(autonomous_pkgname) does -- as observed *)
 Inductive pkg_import :=
@@ -289,7 +314,7 @@ Definition import_outcome (pkgname : string) (i : pkg_import) : package :=
   | ImportRaisesImportError mnf ename =>
     if names_the_package pkgname mnf ename then PkgMissing else PkgInitFails
   | ImportRaisesOther => PkgInitFails
-  | Imported ms => PkgPresent ms
+  | Imported ms => PkgPresent (unique_names [] ms)
   | ImportedNamespace path => PkgPresent (path_modules path)
   end.
 
